@@ -2,7 +2,7 @@
 From IV Require Import Base.Bytes Base.BytesFacts Model.Policy Model.Smtp Model.Dot Model.SmtpWire Proofs.SmtpInv Proofs.SmtpThms Proofs.DotCodec Proofs.SmtpCut.
 From Coq Require Import ZifyBool ZifyNat ZifyN Lia.
 From IV Require Import Proofs.SmtpBytes.
-Theorem bytes_session_always_ends : forall c o w, tls_enabled c = false ->
+Theorem bytes_session_always_ends : forall c o w,
   st (snd (run_bytes c o w)) = QUIT.
 Proof. first [exact SmtpBytes.bytes_session_always_ends | intros; apply SmtpBytes.bytes_session_always_ends]. Qed.
 Print Assumptions bytes_session_always_ends.
